@@ -248,6 +248,7 @@ type c06Ent struct {
 	Key string
 	Val string
 	TS  int64
+	TTL int64 `json:",omitempty"` // absolute expiry in ms, 0 = none (may lie in the past: the copy expired on its way)
 }
 
 func c06Table(ents []c06Ent) []byte {
@@ -257,6 +258,9 @@ func c06Table(ents []c06Ent) []byte {
 		en.SetKey(e.Key)
 		en.SetValue([]byte(e.Val))
 		en.SetTimestamp(e.TS)
+		if e.TTL != 0 {
+			en.SetTTL(e.TTL)
+		}
 		if err := t.Put(partitions.HKey("x", e.Key), en); err != nil {
 			panic(err)
 		}
@@ -297,6 +301,9 @@ func c06Merge(ctx *runCtx, sets int, seed int64) {
 	}
 	defer c.Shutdown()
 	rng := rand.New(rand.NewSource(seed))
+	rngTTL := rand.New(rand.NewSource(seed + 7777)) // separate stream: the value/timestamp cases stay what they were
+	nowMs := time.Now().UnixMilli()
+	expired := func(e c06Ent) bool { return e.TTL != 0 && e.TTL < nowMs }
 	keys := []string{"a", "b", "c", "d", "e"}
 	nameN := 0
 	for s := 0; s < sets; s++ {
@@ -314,7 +321,14 @@ func c06Merge(ctx *runCtx, sets int, seed int64) {
 					// only two different values per key: the same bytes come back with a newer timestamp
 					val = fmt.Sprintf("%s-%s", key, []string{"on", "off"}[int(ts)%2])
 				}
-				ents = append(ents, c06Ent{Key: key, Val: val, TS: c06Base + ts})
+				var ttl int64
+				switch rngTTL.Intn(5) {
+				case 3:
+					ttl = nowMs + 3600_000 // expires in an hour
+				case 4:
+					ttl = nowMs - 3600_000 // ran out while the fragment was on its way: still the newest version of its key
+				}
+				ents = append(ents, c06Ent{Key: key, Val: val, TS: c06Base + ts, TTL: ttl})
 			}
 			sources = append(sources, ents)
 		}
@@ -399,16 +413,36 @@ func c06Merge(ctx *runCtx, sets int, seed int64) {
 					for key, cands := range ref {
 						g, present := gm[key]
 						match := false
+						anyExpired := false
 						for _, cd := range cands {
 							if present && g.Val == cd.Val && g.TS == cd.TS {
 								match = true
 							}
+							anyExpired = anyExpired || expired(cd)
+						}
+						if anyExpired {
+							// the background eviction may remove an expired winner at any moment, after which an older
+							// copy delivered later legitimately stays: judge only the delivery that carried a winner,
+							// and accept "absent" there
+							carried := false
+							for _, e := range sources[si] {
+								if e.Key == key && e.TS == cands[0].TS {
+									carried = true
+								}
+							}
+							if !carried || !present {
+								continue
+							}
+							ctx.rep.Count("merge_judgements_with_expired_winner", 1)
 						}
 						if !match {
 							ordS := fmt.Sprint(order[:step+1])
 							clause := "kept-older"
 							if !present {
 								clause = "lost"
+							}
+							if anyExpired {
+								clause += "|winner-expired"
 							}
 							ctx.rep.Violate(fmt.Sprintf("c06|merge|%s|redelivery=%v|kind=%s", clause, redeliver >= 0 && step == len(order)-1, kind),
 								fmt.Sprintf("%s: after deliveries %s (sources=%v pre-existing=%v) key %q is (present=%v %q ts%d), want one of %v", spec, ordS, sources, pre, key, present, g.Val, g.TS-c06Base, cands),
@@ -417,9 +451,11 @@ func c06Merge(ctx *runCtx, sets int, seed int64) {
 							break
 						}
 					}
-					if len(gm) != len(ref) {
-						ctx.rep.Violate("c06|merge|extra-keys", fmt.Sprintf("%s: receiver holds %d keys, reference %d", spec, len(gm), len(ref)), map[string]interface{}{"config": spec})
-						ok = false
+					for key := range gm {
+						if _, known := ref[key]; !known {
+							ctx.rep.Violate("c06|merge|extra-keys", fmt.Sprintf("%s: receiver holds key %q (%d keys), the reference has %d keys and not this one", spec, key, len(gm), len(ref)), map[string]interface{}{"config": spec})
+							ok = false
+						}
 					}
 					if !ok {
 						break
